@@ -184,6 +184,10 @@ class BaseEphysReader(object):
     sample_onset = 0
     sample_offset = None
 
+    # Make NumPy scalars and arrays on the left-hand side of an operator defer to the reflected
+    # operators below, so that e.g. `np.int64(2) * reader` keeps the type of the scalar.
+    __array_ufunc__ = None
+
     def __init__(self):
         self._ops = []
 
